@@ -913,6 +913,31 @@ class MapSpec:
                 "host_matching": self.host_matching}
 
 
+_PASS = None
+
+
+def ref_urlencode(items) -> str:
+    """urlencode as modelled in coq/C02/Model.v: str() of key and value, UTF-8, space -> '+', the bytes of
+    urlencode_pass (coq/C02/Gen.v, regenerated from werkzeug.urls) unchanged, %XX otherwise; joined with '&'."""
+    global _PASS
+    if _PASS is None:
+        with open(os.path.join(COQ, "C02", "Gen.v"), encoding="utf-8") as fh:
+            m_ = re.search(r"Definition urlencode_pass : list \(N \* N\) := \[(.*?)\]%N", fh.read())
+        _PASS = [tuple(int(x) for x in pr.split(",")) for pr in re.findall(r"\((\d+, \d+)\)", m_.group(1))]
+
+    def qp(x) -> str:
+        out = []
+        for b in str(x).encode("utf-8"):
+            if b == 32:
+                out.append("+")
+            elif any(lo <= b <= hi for lo, hi in _PASS):
+                out.append(chr(b))
+            else:
+                out.append(f"%{b:02X}")
+        return "".join(out)
+    return "&".join(f"{qp(k)}={qp(v)}" for k, v in items)
+
+
 @dataclass(frozen=True)
 class Adapter:
     scheme: str = "http"
@@ -940,12 +965,52 @@ class Adapter:
             return self.default_sub
         return self.subdomain
 
+    def query_items(self):
+        """the (key, value) items MapAdapter.encode_query_args has to encode, in the order iter_multi_items yields them:
+        a mapping's values that are lists one item per element, a MultiDict grouped by key (its storage), a list of pairs as given."""
+        q = self.query
+        if not q or isinstance(q, str):
+            return []
+        if q and isinstance(q[0], str) and q[0].startswith("@"):
+            kind, pairs = q[0], [tuple(x) for x in q[1]]
+            if kind == "@pairs":
+                return pairs
+            keys = []
+            for k, _ in pairs:
+                if k not in keys:
+                    keys.append(k)
+            return [(k, v) for k in keys for k2, v in pairs if k2 == k]
+        return list(dict(q).items())
+
+    def query_object(self):
+        """the object handed to Map.bind(query_args=...)"""
+        from werkzeug.datastructures import ImmutableMultiDict, MultiDict
+        q = self.query
+        if isinstance(q, tuple) and q and isinstance(q[0], str) and q[0].startswith("@"):
+            kind, pairs = q[0], [tuple(x) for x in q[1]]
+            if kind == "@multidict":
+                return MultiDict(pairs)
+            if kind == "@immutable":
+                return ImmutableMultiDict(pairs)
+            if kind == "@pairs":
+                return pairs
+            d = {}
+            for k, v in pairs:          # "@lists": a dict of lists (a single value stays a scalar)
+                d.setdefault(k, []).append(v)
+            return {k: (v[0] if len(v) == 1 and kind == "@lists1" else v) for k, v in d.items()}
+        if isinstance(q, tuple):
+            return dict(q)
+        return q
+
     def query_str(self) -> str:
-        from werkzeug.urls import _urlencode
+        """the bound query string: the string itself, or the urlencode of ALL items with a value - computed here from the
+        pass-through table of coq/C02/Gen.v (the C02 model of werkzeug.urls._urlencode), not by werkzeug"""
         q = self.query
         if not q:
             return ""
-        return q if isinstance(q, str) else _urlencode(dict(q))
+        if isinstance(q, str):
+            return q
+        return ref_urlencode([(k, v) for k, v in self.query_items() if v is not None])
 
     def eff_script(self) -> str:
         # a WSGI server hands SCRIPT_NAME over without the trailing slash
@@ -963,9 +1028,7 @@ class Adapter:
         return create_environ(path, f"{self.scheme}://{host}{self.script.rstrip('/')}/", query_string=q, method=method, headers=hd)
 
     def bind(self, m):
-        q = self.query
-        if isinstance(q, tuple):
-            q = dict(q)
+        q = self.query_object()
         old_default = m.default_subdomain
         if self.default_sub is not None:
             m.default_subdomain = self.default_sub
@@ -1853,7 +1916,7 @@ def replay(rep: dict) -> int:
     adp = inp.get("adapter") or {}
     q = adp.get("query")
     if isinstance(q, list):
-        q = dict(q)
+        q = Adapter(query=(q[0], tuple(tuple(x) for x in q[1])) if q and isinstance(q[0], str) else tuple(tuple(x) for x in q)).query_object()
     a = m.bind(adp.get("server", "example.com"), adp.get("script", "/"), adp.get("subdomain"), adp.get("scheme", "http"), query_args=q)
     try:
         print("observed now:", a.match(inp["path"], inp["method"]))
@@ -1902,7 +1965,7 @@ def load_corpus(pid: str):
             a = c.get("adapter") or {}
             q = a.get("query")
             if isinstance(q, list):
-                q = tuple(tuple(x) for x in q)
+                q = (q[0], tuple(tuple(x) for x in q[1])) if q and isinstance(q[0], str) else tuple(tuple(x) for x in q)
             out.append((spec_from_json(c["map"]), c["paths"], c["methods"],
                         Adapter(scheme=a.get("scheme", "http"), server=a.get("server", "example.com"), script=a.get("script", "/"),
                                 subdomain=a.get("subdomain"), query=q, environ=bool(a.get("environ", False)),
